@@ -632,10 +632,9 @@ pub fn run_write_script(version: u8, max_buf: Option<u32>, script: &[WOp], ctl: 
                 WOp::CfbFlush => {
                     // "Flushes all changes to the underlying file": Ok without a flush call on the
                     // underlying writer is not a flush (also on the repetition after a failed one)
-                    let f0 = ctl.lock().unwrap().counters.flushes;
                     let r = guard("flush", || c.flush())?;
-                    if r.is_ok() && ctl.lock().unwrap().counters.flushes == f0 {
-                        return Err(Fail::new("write_fault|flush|inner_flush_not_called", "CompoundFile::flush returned Ok without flushing the underlying writer"));
+                    if r.is_ok() && ctl.lock().unwrap().dirty_since_flush {
+                        return Err(Fail::new("write_fault|flush|inner_flush_not_called", "CompoundFile::flush returned Ok although data written to the underlying writer since its last successful flush was not flushed"));
                     }
                     Some(r)
                 }
@@ -745,12 +744,13 @@ pub fn run_write_script(version: u8, max_buf: Option<u32>, script: &[WOp], ctl: 
                                     guard("h_read", || h.stream.read(&mut buf))?.map(|_| ())
                                 }
                                 WOp::Flush { .. } => {
-                                    let f0 = ctl.lock().unwrap().counters.flushes;
                                     let r = guard("h_flush", || h.stream.flush())?;
                                     if r.is_ok() {
                                         flush_ok_slot = Some(s);
-                                        if ctl.lock().unwrap().counters.flushes == f0 {
-                                            return Err(Fail::new("write_fault|h_flush|inner_flush_not_called", "Stream::flush returned Ok without flushing the underlying writer"));
+                                        // (a library that skips the underlying flush when nothing was written
+                                        // since the last successful one is not at fault)
+                                        if ctl.lock().unwrap().dirty_since_flush {
+                                            return Err(Fail::new("write_fault|h_flush|inner_flush_not_called", "Stream::flush returned Ok although data written to the underlying writer since its last successful flush was not flushed"));
                                         }
                                     }
                                     r
